@@ -18,17 +18,32 @@ class ScoreOps (S : Type) where
   add  : S → S → S
   sub  : S → S → S
   mul  : S → S → S
+  div  : S → S → S
   half : S → S
+  sum  : List S → S
   le   : S → S → Bool
   lt   : S → S → Bool
   zero : S
   one  : S
   big  : S
 
+/-- CPython 3.12 `sum()` on floats: start `0 + x₀`, then Neumaier-compensated accumulation. -/
+def pySumFloat : List Float → Float
+  | [] => 0.0
+  | x0 :: xs =>
+    let (f, c) := xs.foldl (fun (st : Float × Float) y =>
+      let x := st.1
+      let t := x + y
+      let c := if x.abs >= y.abs then st.2 + ((x - t) + y) else st.2 + ((y - t) + x)
+      (t, c)) (0.0 + x0, 0.0)
+    if c != 0.0 && c.isFinite then f + c else f
+
 instance : ScoreOps Float where
   add := (· + ·)
   sub := (· - ·)
   mul := (· * ·)
+  div := (· / ·)
+  sum := pySumFloat
   half := (· / 2.0)
   le a b := decide (a ≤ b)
   lt a b := decide (a < b)
@@ -40,6 +55,8 @@ instance : ScoreOps Int where
   add := (· + ·)
   sub := (· - ·)
   mul := (· * ·)
+  div := (· / ·)
+  sum := fun l => l.foldl (· + ·) 0
   half := (· / 2)
   le a b := decide (a ≤ b)
   lt a b := decide (a < b)
@@ -134,28 +151,49 @@ termination_by i j => i + j
 /-- Local traceback (`while traceback[i][j] != 0`, `else: break`).  Returns the
 end point reached and the aligned columns. -/
 def tbLocal (tb : Nat → Nat → Nat) (a b : List α) : Nat → Nat → List (Col α) → Option (Nat × Nat × List (Col α))
-  | i, j, acc =>
-    if tb i j = 3 then
-      match i with
-      | 0 => none
-      | i'+1 => match b[i']? with
-        | some y => tbLocal tb a b i' j ((none, some y) :: acc)
+  | 0, 0, acc =>
+      if tb 0 0 = 3 then none else if tb 0 0 = 1 then none else if tb 0 0 = 2 then none
+      else some (0, 0, acc)
+  | i+1, 0, acc =>
+      if tb (i+1) 0 = 3 then
+        match b[i]? with
+        | some y => tbLocal tb a b i 0 ((none, some y) :: acc)
         | none => none
-    else if tb i j = 1 then
-      match i, j with
-      | i'+1, j'+1 => match a[j']?, b[i']? with
-        | some x, some y => tbLocal tb a b i' j' ((some x, some y) :: acc)
+      else if tb (i+1) 0 = 1 then none else if tb (i+1) 0 = 2 then none
+      else some (i+1, 0, acc)
+  | 0, j+1, acc =>
+      if tb 0 (j+1) = 3 then none else if tb 0 (j+1) = 1 then none
+      else if tb 0 (j+1) = 2 then
+        match a[j]? with
+        | some x => tbLocal tb a b 0 j ((some x, none) :: acc)
+        | none => none
+      else some (0, j+1, acc)
+  | i+1, j+1, acc =>
+      if tb (i+1) (j+1) = 3 then
+        match b[i]? with
+        | some y => tbLocal tb a b i (j+1) ((none, some y) :: acc)
+        | none => none
+      else if tb (i+1) (j+1) = 1 then
+        match a[j]?, b[i]? with
+        | some x, some y => tbLocal tb a b i j ((some x, some y) :: acc)
         | _, _ => none
-      | _, _ => none
-    else if tb i j = 2 then
-      match j with
-      | 0 => none
-      | j'+1 => match a[j']? with
-        | some x => tbLocal tb a b i j' ((some x, none) :: acc)
+      else if tb (i+1) (j+1) = 2 then
+        match a[j]? with
+        | some x => tbLocal tb a b (i+1) j ((some x, none) :: acc)
         | none => none
-    else some (i, j, acc)
+      else some (i+1, j+1, acc)
 termination_by i j => i + j
 
+
+/-! ### Decidable border checks for an observed move table (tie (a) of C01) -/
+
+def bordersGb (tb : Nat → Nat → Nat) (N M : Nat) : Bool :=
+  (List.range M).all (fun j => tb 0 (j+1) != 3 && tb 0 (j+1) != 1) &&
+  (List.range N).all (fun i => tb (i+1) 0 == 3)
+
+def bordersLb (tb : Nat → Nat → Nat) (N M : Nat) : Bool :=
+  (List.range (M+1)).all (fun j => tb 0 j != 3 && tb 0 j != 1) &&
+  (List.range (N+1)).all (fun i => tb i 0 != 1 && tb i 0 != 2)
 
 /-! ### The scoring schemes of the Python kernels as a parametric family -/
 
@@ -342,15 +380,17 @@ inductive Result (S : Type) where
   | glob (cols : List (Col Nat)) (sim : S)
   | loc (i0 j0 k l : Nat) (cols : List (Col Nat)) (sim : S)
   | error
+  deriving DecidableEq, Repr
 
 def run [Inhabited S] (cfg : Cfg) (inp : Input S) : Result S :=
   let M := inp.M
   let N := inp.N
   let tab := rowsRev (fillOf cfg inp) M N
   let tb := fun i j => (getCell tab N i j).2
-  if cfg.mode = .local then
+  if M = 0 ∨ N = 0 then .error    -- the Python kernels raise NameError on an empty sequence
+  else if cfg.mode = .local then
     let (_, k, l) := bestScan cfg 1 (tab.reverse.drop 1) (zero, 0, 0)
-    if k = 0 then .error else
+    if k = 0 ∨ N < k ∨ M < l then .error else
     match tbLocal tb inp.a inp.b k l [] with
     | some (i0, j0, cols) => .loc i0 j0 k l cols (getCell tab N k l).1
     | none => .error
@@ -358,6 +398,25 @@ def run [Inhabited S] (cfg : Cfg) (inp : Input S) : Result S :=
     match tbGlobal tb inp.a inp.b N M [] with
     | some cols => .glob cols (getCell tab N N M).1
     | none => .error
+
+/-! ### Normalised distance (Downey et al. 2008) as computed by `align_pair(s)` -/
+
+def selfScore (cfg : Cfg) (inp : Input S) (xs : List Nat) : S :=
+  ScoreOps.sum (xs.map fun x =>
+    if cfg.flavour = 0 then mul (add one inp.factor) (inp.scorer x x) else inp.scorer x x)
+
+/-- `1 - 2 * sim / (simA + simB)` in the operation order of the source. -/
+def distance (cfg : Cfg) (inp : Input S) (sim : S) : S :=
+  sub one (div (mul (add one one) sim) (add (selfScore cfg inp inp.a) (selfScore cfg inp inp.b)))
+
+def Result.sim? : Result S → Option S
+  | .glob _ s => some s
+  | .loc _ _ _ _ _ s => some s
+  | .error => none
+
+/-- what `align_pair(..., distance=2)` returns in addition to the alignment -/
+def runDist [Inhabited S] (cfg : Cfg) (inp : Input S) : Option (S × S) :=
+  (run cfg inp).sim?.map fun s => (s, distance cfg inp s)
 
 /-! ### Independent re-scoring of returned columns -/
 
